@@ -68,6 +68,9 @@ def gen(rng, tier):
     return [gen_one(rng) for _ in range(n)]
 
 
+ATTR_KINDS = ("newspan", "spansid", "fmt", "reg", "regretry", "unreg")
+
+
 def c_rec(r):
     k = r[0]
     if k == "cb":
@@ -89,7 +92,8 @@ def c_rec(r):
 def term(case, res):
     if res.get("panicked") or res.get("events") != res.get("traced"):
         raise ValueError("run panicked or trace/event mismatch")
-    return "(mk_tcase %s)" % clist(res["history"], c_rec)
+    # the records of the attribution trace points (span tree, resolved ids, registry) are judged by C20b
+    return "(mk_tcase %s)" % clist([r for r in res["history"] if r[0] not in ATTR_KINDS], c_rec)
 
 
 def panic_result(case):
